@@ -228,6 +228,9 @@ enum Race {
     RelinkOut,
     LinkIn,
     Unlink,
+    /// the root above the exiting node is killed / told to stop while that node is still on its way out
+    AncestorKill,
+    AncestorStop,
 }
 
 fn live_body(shape: Shape, at_root: bool, cause: Cause, race: Race, local_child: bool) -> vsched::Body {
@@ -313,6 +316,7 @@ fn live_body(shape: Shape, at_root: bool, cause: Cause, race: Race, local_child:
                     }
                 }
             });
+            let r3 = r.clone();
             let (a3, b3, o3, log3, cells3) = (a.clone(), b.clone(), o.clone(), log.clone(), cells.clone());
             let racer = vsched::spawn("racer", async move {
                 if matches!(cause, Cause::SlowStop | Cause::DrainBacklog) {
@@ -342,12 +346,33 @@ fn live_body(shape: Shape, at_root: bool, cause: Cause, race: Race, local_child:
                         b3.get_cell().unlink(a3.get_cell());
                         ("unlink", true, None)
                     }
+                    Race::AncestorKill => {
+                        r3.kill();
+                        ("ancestor", true, None)
+                    }
+                    Race::AncestorStop => {
+                        r3.stop(None);
+                        ("ancestor", true, None)
+                    }
                 }
             });
             let _ = killer.await;
             let (what, race_ok, spawned) = racer.await.expect("racer");
-            vsched::quiesce_time();
             let mut bad = Vec::new();
+            if what == "ancestor" {
+                // no time passes: a node lingering in post_stop is still lingering. Once the root has
+                // stopped, everything that was beneath it has been signalled, whatever the state of the
+                // nodes in between
+                vsched::quiesce();
+                if r.get_status() == ActorStatus::Stopped {
+                    for (n, c) in all.iter().filter(|x| x.0 != "O" && x.0 != "R" && x.0 != "A") {
+                        if c.get_status() != ActorStatus::Stopped {
+                            bad.push(format!("the root has stopped (A is {:?}) but {n}, linked beneath it through A, is still {:?}", a.get_status(), c.get_status()));
+                        }
+                    }
+                }
+            }
+            vsched::quiesce_time();
             let status = |n: &str| all.iter().find(|x| x.0 == n).map(|x| x.1.get_status());
             if dying.get_status() != ActorStatus::Stopped {
                 bad.push(format!("the actor that was told to exit is {:?}", dying.get_status()));
@@ -671,6 +696,13 @@ pub fn plan(tier: &str) -> Plan {
             live.push((shape, at_root, cause, race, false));
         }
     }
+    // an ancestor exits while a node in the middle is still on its way out (inside a slow post_stop, or draining)
+    for cause in [Cause::SlowStop, Cause::DrainBacklog] {
+        for (shape, race) in [(Shape::Chain, Race::AncestorKill), (Shape::Bushy, Race::AncestorKill), (Shape::Chain, Race::AncestorStop)] {
+            live.push((shape, false, cause, race, false));
+        }
+    }
+    live.push((Shape::Chain, false, Cause::SlowStop, Race::AncestorKill, true));
     // exits by task cancellation: the exiting node's task is dropped before its k-th poll
     for (shape, at_root, race) in [(Shape::Chain, false, Race::SpawnUnderDying), (Shape::Bushy, true, Race::None), (Shape::Chain, false, Race::RelinkOut), (Shape::Fan, true, Race::LinkIn)] {
         for k in 1..=(if thorough { 5 } else { 3 }) {
